@@ -434,17 +434,17 @@ def latchDone (g : Nat) (u : St) : St :=
   { u with refCount := u.refCount - 1,
            gens := fun k => if k = g then { (u.gens g) with upTorn := true, ssFins := [g] } else u.gens k }
 
-theorem finish_live (fl : Flags) {g i : Nat} {u : St} (h : FLive g i u) :
-    r3tail fl i g (upAddTeardown g u) = liveDone i g u ∧ Inv (r3tail fl i g (upAddTeardown g u)) ∧ GenActive (r3tail fl i g (upAddTeardown g u)) g ∧
-      (r3tail fl i g (upAddTeardown g u)).subject = some g := by
+theorem finish_live (fixed : Bool) (fl : Flags) {g i : Nat} {u : St} (h : FLive g i u) :
+    r3tail fixed fl i g (upAddTeardown g u) = liveDone i g u ∧ Inv (r3tail fixed fl i g (upAddTeardown g u)) ∧ GenActive (r3tail fixed fl i g (upAddTeardown g u)) g ∧
+      (r3tail fixed fl i g (upAddTeardown g u)).subject = some g := by
   have hss : u.sourceSubscription = some g := by rw [h.shared]; exact h.subject
   have h1 := h.ssDone
   have h2 := h.ssFins
   have h3 := h.pDone
   have h4 := h.done
-  have e : r3tail fl i g (upAddTeardown g u) = liveDone i g u := by
-    simp [r3tail, upAddTeardown, h.pDone, hss, h.ssDone, addTeardown, h.done, h.ssFins, liveDone]
-    refine ⟨?_, ?_⟩ <;> funext k <;> split <;> simp_all
+  have e : r3tail fixed fl i g (upAddTeardown g u) = liveDone i g u := by
+    cases fixed <;> simp [r3tail, ssAdd, upAddTeardown, h.pDone, hss, h.ssDone, addTeardown, h.done, h.ssFins, liveDone] <;>
+      (refine ⟨?_, ?_⟩ <;> funext k <;> split <;> simp_all)
   refine ⟨e, ?_⟩
   rw [e]
   generalize hF : liveDone i g u = F
@@ -495,16 +495,17 @@ theorem finish_live (fl : Flags) {g i : Nat} {u : St} (h : FLive g i u) :
     exact ⟨by omega, Or.inl hact⟩
 
 theorem finish_reset (fl : Flags) {g i : Nat} {u : St} (h : FReset g i u) :
-    r3tail fl i g (upAddTeardown g u) = resetDone g u ∧ Inv (r3tail fl i g (upAddTeardown g u)) ∧ (r3tail fl i g (upAddTeardown g u)).subject = none := by
+    r3tail false fl i g (upAddTeardown g u) = resetDone g u ∧ Inv (r3tail false fl i g (upAddTeardown g u)) ∧ (r3tail false fl i g (upAddTeardown g u)).subject = none := by
   have hss : u.sourceSubscription = none := by rw [h.shared]; exact h.subject
   have hD : ∀ v : St, SubClosed (v.subs i) → dUnsubscribe fl i (dTerm fl i (.error .nilDeref) v) = v.drop (.error .nilDeref) := by
     intro v hv
     rw [dTerm_closed fl _ hv]
     simp [dUnsubscribe, hv.status]
-  have e : r3tail fl i g (upAddTeardown g u) = resetDone g u := by
+  have e : r3tail false fl i g (upAddTeardown g u) = resetDone g u := by
     have e1 : upAddTeardown g u = u.modGen g fun x => { x with upTorn := true } := by simp [upAddTeardown, h.pDone]
     rw [e1]
     unfold r3tail resetDone
+    simp only [Bool.false_eq_true, if_false]
     have : (u.modGen g fun x => { x with upTorn := true }).sourceSubscription = none := hss
     split
     next => rw [hD]; rfl; exact h.sub
@@ -542,20 +543,17 @@ theorem finish_reset (fl : Flags) {g i : Nat} {u : St} (h : FReset g i u) :
     exact ⟨by rw [← hF]; exact h.flagE, by rw [← hF]; exact h.flagC, hos⟩
   · intro g' hg'; rw [hsubj] at hg'; cases hg'
 
-theorem finish_latch (fl : Flags) {g i : Nat} {u : St} (h : FLatch g i u) :
-    r3tail fl i g (upAddTeardown g u) = latchDone g u ∧ Inv (r3tail fl i g (upAddTeardown g u)) ∧ GenLatched (r3tail fl i g (upAddTeardown g u)) g ∧
-      (r3tail fl i g (upAddTeardown g u)).subject = some g := by
+theorem finish_latch (fixed : Bool) (fl : Flags) {g i : Nat} {u : St} (h : FLatch g i u) :
+    r3tail fixed fl i g (upAddTeardown g u) = latchDone g u ∧ Inv (r3tail fixed fl i g (upAddTeardown g u)) ∧ GenLatched (r3tail fixed fl i g (upAddTeardown g u)) g ∧
+      (r3tail fixed fl i g (upAddTeardown g u)).subject = some g := by
   have hss : u.sourceSubscription = some g := by rw [h.shared]; exact h.subject
   have hc := h.sub.status
   have h1 := h.ssDone
   have h2 := h.ssFins
   have h3 := h.pDone
-  have e : r3tail fl i g (upAddTeardown g u) = latchDone g u := by
-    simp [r3tail, upAddTeardown, h.pDone, hss, h.ssDone, addTeardown, h.sub.done, h.ssFins, teardownT, casClose, hc, decRef, latchDone]
-    rw [zeroReset_flag (by exact h.flag)]
-    simp
-    funext k
-    split <;> simp_all
+  have e : r3tail fixed fl i g (upAddTeardown g u) = latchDone g u := by
+    cases fixed <;> simp [r3tail, ssAdd, upAddTeardown, h.pDone, hss, h.ssDone, addTeardown, h.sub.done, h.ssFins, teardownT, casClose, hc, decRef, latchDone] <;>
+      (rw [zeroReset_flag (by exact h.flag)]; simp; funext k; split <;> simp_all)
   refine ⟨e, ?_⟩
   rw [e]
   generalize hF : latchDone g u = F
@@ -593,6 +591,63 @@ theorem finish_latch (fl : Flags) {g i : Nat} {u : St} (h : FLatch g i u) :
     have : g' = g := (Option.some.inj hg').symm
     subst this
     exact ⟨by omega, Or.inr hlat⟩
+/-- the repaired tree: the local `currentSourceSubscription` is already done, so the proxy's
+    `Unsubscribe` is run at once (a no-op: the proxy has ended) and Share's teardown is registered as
+    usual — it runs at once and gives the reference back -/
+def resetDoneFixed (g : Nat) (u : St) : St :=
+  { (u.modGen g fun x => { x with upTorn := true }) with refCount := u.refCount - 1 }
+
+theorem finish_reset_fixed (fl : Flags) {g i : Nat} {u : St} (h : FReset g i u) :
+    r3tail true fl i g (upAddTeardown g u) = resetDoneFixed g u ∧ Inv (r3tail true fl i g (upAddTeardown g u)) ∧
+      (r3tail true fl i g (upAddTeardown g u)).subject = none := by
+  have hss : u.sourceSubscription = none := by rw [h.shared]; exact h.subject
+  have hc := h.sub.status
+  have hps := h.pStatus
+  have e : r3tail true fl i g (upAddTeardown g u) = resetDoneFixed g u := by
+    have e1 : upAddTeardown g u = u.modGen g fun x => { x with upTorn := true } := by simp [upAddTeardown, h.pDone]
+    rw [e1]
+    have hz : ∀ w : St, w.subject = none → w.sourceSubscription = none → (w.gens g).ssDone = true → zeroReset fl g w = w := by
+      intro w h1 h2 h3
+      unfold zeroReset
+      split
+      · exact reset_stale h3 (by simp [h1]) (by simp [h2])
+      · rfl
+    simp [r3tail, ssAdd, h.ssDone, pUnsubscribe, hps, addTeardown, h.sub.done, teardownT, casClose, hc, decRef]
+    rw [hz _ (by exact h.subject) (by exact hss) (by simp [h.ssDone])]
+    rfl
+  refine ⟨e, ?_⟩
+  rw [e]
+  generalize hF : resetDoneFixed g u = F
+  simp only [resetDoneFixed] at hF
+  have hsubs : F.subs = u.subs := by rw [← hF]; rfl
+  have hgens : ∀ k, k ≠ g → F.gens k = u.gens k := by intro k hk; rw [← hF]; simp [St.modGen, hk]
+  have hns : F.nsubs = i + 1 := by rw [← hF]; exact h.nsubs
+  have hng : F.ngens = g + 1 := by rw [← hF]; exact h.ngens
+  have hsubj : F.subject = none := by rw [← hF]; exact h.subject
+  have hos : openSubs F = [] := openSubs_none hns (fun k hk => by rw [hsubs]; exact (h.closed k hk).status) (by rw [hsubs]; exact h.sub.status)
+  refine ⟨?_, hsubj⟩
+  constructor
+  · rw [← hF]; exact h.shared
+  · intro k hk hks
+    rw [hsubs]
+    by_cases hki : k = i
+    · subst hki; exact h.sub
+    · exact h.closed k (by omega)
+  · intro k hk _
+    by_cases hkg : k = g
+    · subst hkg
+      rw [← hF]
+      constructor <;> simp [St.modGen, h.pStatus, h.pDone, h.pFin, h.upSub, h.ssFins, h.ssDone, h.obs]
+    · rw [hgens k hkg]; exact h.stale k (by omega)
+  · rw [hos]
+    have := h.count
+    have h1 : F.refCount = u.refCount - 1 := by rw [← hF]
+    have h2 : F.panics = u.panics := by rw [← hF]; rfl
+    rw [h1, h2, this]; simp; omega
+  · intro _
+    exact ⟨by rw [← hF]; exact h.flagE, by rw [← hF]; exact h.flagC, hos⟩
+  · intro g' hg'; rw [hsubj] at hg'; cases hg'
+
 /-! ### the creator of a generation enters R3 -/
 
 /-- control state when the creator of generation `s.ngens` enters R3's `source.Subscribe` -/
@@ -624,7 +679,7 @@ theorem flive_freshState (conn : Conn) {s : St} (hi : Inv s) (hsub : s.subject =
 
 theorem subscribe_fresh_eq (cfg : Cfg) {s : St} (hi : Inv s) (hsub : s.subject = none) :
     ∃ u0 k, Sim (freshState cfg.conn s) u0 ∧
-      subscribe cfg s = r3tail cfg.flags s.nsubs s.ngens (upAddTeardown s.ngens (playPre cfg s.ngens (cfg.pre k) u0)) := by
+      subscribe cfg s = r3tail cfg.fixed cfg.flags s.nsubs s.ngens (upAddTeardown s.ngens (playPre cfg s.ngens (cfg.pre k) u0)) := by
   have hnn : needsNew s = true := (needsNew_iff hi).mpr hsub
   have hnn' : needsNew (newSub s) = true := hnn
   have e1 : r1 cfg (newSub s) =
@@ -662,9 +717,11 @@ theorem subscribe_cases (cfg : Cfg) {s : St} (hi : Inv s) :
     rw [he]
     have hl := (flive_freshState cfg.conn hi hsub).sim hsim
     rcases playPre_live cfg (cfg.pre k) hl with h | ⟨_, h⟩ | h
-    · exact (finish_live cfg.flags h).2.1
-    · exact (finish_reset cfg.flags h).2.1
-    · exact (finish_latch cfg.flags h).2.1
+    · exact (finish_live cfg.fixed cfg.flags h).2.1
+    · cases hfx : cfg.fixed
+      · exact (finish_reset cfg.flags h).2.1
+      · exact (finish_reset_fixed cfg.flags h).2.1
+    · exact (finish_latch cfg.fixed cfg.flags h).2.1
   | some g =>
     rcases (hi.cur g hsub).2 with ha | hl
     · exact (inv_joinState hi hsub ha).1.sim (subscribe_join_active cfg hi hsub ha)
